@@ -10,8 +10,8 @@
 //
 // Prints one summary line:
 //   inputs=N accepted=A rejected=R crc32=<hex>
-// where crc32 is zlib's CRC-32 over, for each input in order, 'A' + json + '\n'
-// or 'R' + message + '\n'.  difftest.py compares it with the -O2 .so results.
+// where crc32 is zlib's CRC-32 over the sequence of little-endian 32-bit
+// per-input CRC-32s of 'A' + json (accepted) or 'R' + message (rejected).  difftest.py compares it with the -O2 .so results.
 // Exit status: 0 ok, 2 usage/IO error, 3 ABI contract violation; sanitizer
 // reports abort the process (-fno-sanitize-recover=all / ASan default).
 
@@ -33,7 +33,7 @@ namespace {
 
 // CRC-32 (zlib polynomial), so that Python can check it with zlib.crc32.
 uint32_t g_crc_table[256];
-uint32_t g_crc = 0xFFFFFFFFu;
+uint32_t g_total = 0xFFFFFFFFu;  // running CRC over the per-input CRCs
 
 void crc_init() {
   for (uint32_t i = 0; i < 256; i++) {
@@ -43,11 +43,21 @@ void crc_init() {
   }
 }
 
-void hash_bytes(const void* p, size_t n) {
+uint32_t crc_update(uint32_t c, const void* p, size_t n) {
   const unsigned char* b = static_cast<const unsigned char*>(p);
-  uint32_t c = g_crc;
   for (size_t i = 0; i < n; i++) c = g_crc_table[(c ^ b[i]) & 0xFFu] ^ (c >> 8);
-  g_crc = c;
+  return c;
+}
+
+void record(char tag, const char* text, size_t n) {
+  uint32_t c = 0xFFFFFFFFu;
+  c = crc_update(c, &tag, 1);
+  c = crc_update(c, text, n);
+  c ^= 0xFFFFFFFFu;
+  const unsigned char le[4] = {
+      static_cast<unsigned char>(c & 0xFF), static_cast<unsigned char>((c >> 8) & 0xFF),
+      static_cast<unsigned char>((c >> 16) & 0xFF), static_cast<unsigned char>((c >> 24) & 0xFF)};
+  g_total = crc_update(g_total, le, 4);
 }
 
 }  // namespace
@@ -118,9 +128,7 @@ int main(int argc, char** argv) {
       const char* json2 = graphql_ast_to_json(node);  // idempotent
       if (json2 == nullptr || std::strcmp(json, json2) != 0) return 3;
       const size_t jl = std::strlen(json);
-      hash_bytes("A", 1);
-      hash_bytes(json, jl);
-      hash_bytes("\n", 1);
+      record('A', json, jl);
       if (dump) std::printf("A %s\n", json);
       graphql_node_free(node);
       accepted++;
@@ -130,9 +138,7 @@ int main(int argc, char** argv) {
         return 3;
       }
       const size_t el = std::strlen(error);
-      hash_bytes("R", 1);
-      hash_bytes(error, el);
-      hash_bytes("\n", 1);
+      record('R', error, el);
       if (dump) std::printf("R %s\n", error);
       graphql_error_free(error);
       rejected++;
@@ -140,6 +146,6 @@ int main(int argc, char** argv) {
   }
   std::fclose(f);
   std::printf("inputs=%llu accepted=%llu rejected=%llu crc32=%08lx\n", inputs, accepted,
-              rejected, static_cast<unsigned long>(g_crc ^ 0xFFFFFFFFu));
+              rejected, static_cast<unsigned long>(g_total ^ 0xFFFFFFFFu));
   return 0;
 }
